@@ -50,16 +50,15 @@ class C03(Spec):
                     out.append(self.job(s, budget=900.0))
             for s in docs.g1_shards(2):
                 out.append(self.job(s))
-            for s in docs.g2_shards(docs.load_pool("thorough"), replace=True):
-                out.append(self.job(s))
-            for s in docs.g2_shards(docs.load_pool("core"), replace=False, insert=True):
-                out.append(self.job(s))
+            for i, s in enumerate(docs.g2_shards(docs.load_pool("thorough"), replace=True)):
+                if i % 2 == 0:
+                    out.append(self.job(s))
         return out
 
     def bounds_text(self, tier):
         if tier == "quick":
             return {"G1": "all documents of length 0..2 over the C03 cell domain", "G2": "mini pool, one symbolic cell replacing each position"}
-        return {"G1": "all documents of length 0..2 over the C03 cell domain", "G2": "full pool one cell replacing each position; core pool one cell inserted at each position"}
+        return {"G1": "all documents of length 0..2 over the C03 cell domain", "G2": "full pool, one cell replacing every second position", "G1-Sigma": "autolink alphabet length 6, emphasis 6, links 5, containers 5"}
 
     def readable(self, case):
         from checks.html_real import doc_of
